@@ -227,6 +227,13 @@ def tests(jobs):
         tgt = os.path.join(base, f'grevm-mutsweep-target-{slot}')
         if not os.path.isdir(tgt):
             shutil.copytree(os.path.join(core.REPO, 'target'), tgt, symlinks=True)
+            # warm-up: the copied cache is rebuilt once for the new location; do it on the unmutated tree, without a time limit
+            w = tempfile.mkdtemp(prefix='grevm-mutsweep-warm-', dir=base)
+            for item in ('src', 'Cargo.toml', 'Cargo.lock', 'benches', 'tests', 'rust-toolchain.toml'):
+                s_ = os.path.join(core.REPO, item)
+                (shutil.copytree if os.path.isdir(s_) else shutil.copy2)(s_, os.path.join(w, item))
+            subprocess.run(['cargo', 'test', '--offline', '--lib', '--no-run'], cwd=w, env=dict(os.environ, CARGO_TARGET_DIR=tgt, CARGO_NET_OFFLINE='true'), capture_output=True)
+            shutil.rmtree(w, ignore_errors=True)
         while True:
             m = q.get()
             if m is None:
